@@ -380,6 +380,11 @@ func (c *Ctx) Finish() int {
 			// shared between calls).  Still a violation of a universally quantified property; said so.
 			extra += " reproducible_in_isolation=false(the failure depends on earlier calls: state kept between calls)"
 		}
+		if ExtraNote != nil {
+			if n := ExtraNote(); n != "" {
+				extra += " note=(" + n + ")"
+			}
+		}
 		lines = append(lines, fmt.Sprintf("VIOLATION property=%s replay=%s key=%s count=%d%s :: %s", id, path, key, r.count, extra, r.fails[0].Msg))
 	}
 	for _, k := range c.known {
@@ -640,6 +645,9 @@ func SweepWorker(c *Ctx, arg string) int {
 
 // CtxEvals returns the evaluations counted through Eval so far.
 func (c *Ctx) CtxEvals() int64 { return c.evals.Load() }
+
+// ExtraNote, when set, adds a remark to every VIOLATION line (why an oracle saw what it saw).
+var ExtraNote func() string
 
 // Guard runs one case; a panic that escapes it (the library panicked on a valid call that the
 // harness makes while building or inspecting the case) becomes a failure instead of ending
